@@ -59,6 +59,27 @@ def gen_cubes(tier, seed):
                 pixels = [[float(nd) if x == nd else float(min(30000, int(round(x)))) for x in px] for px in pixels]
                 pixels = [[x if (x == nd or x != nd) else x for x in px] for px in pixels]
         cubes.append((pixels, nd, st, sp, api, dtype))
+    # far tails inside the claim (5.2 < |SPI| <= 7): a calibration sub-window of ordinary values, and observations OUTSIDE the
+    # window placed at chosen normal quantiles of the window's own fit (tail probabilities 1e-7 .. 1e-12)
+    import scipy.stats as sst
+
+    for k in range(6 if quick else 40):
+        W = rng.choice([24, 36, 60])
+        mean, sd = rng.choice([(1000.0, 100.0), (300.0, 60.0), (5000.0, 400.0)])
+        win = rs.gamma((mean / sd) ** 2, sd * sd / mean, W)
+        dtype = ["int16", "float64", "int16", "float32"][k % 4]
+        if dtype == "int16":
+            win = np.round(win)
+        a_, _loc, b_ = sst.gamma.fit(win, floc=0)
+        tails = []
+        for z in (-6.8, -6.3, -5.8, -5.3, 5.3, 5.8, 6.3, 6.8):
+            x = sst.gamma.ppf(sst.norm.cdf(z), a_, scale=b_) if z < 0 else sst.gamma.isf(sst.norm.sf(z), a_, scale=b_)
+            tails.append(float(np.round(x)) if dtype == "int16" else float(x))
+        tails = [t for t in tails if 0 < t < 30000]
+        rng.shuffle(tails)
+        lead = rng.randint(0, len(tails))
+        xs = tails[:lead] + [float(v) for v in win.tolist()] + tails[lead:]
+        cubes.append(([xs], -9999, lead, lead + W, rng.choice(["yxt", "accessor", "grp"] if dtype != "float64" else ["yxt"]), dtype, "tails"))
     # boundary of the zero-share guard: exactly 90% zeros is still fitted, one more zero is not
     for T in (20, 30, 40) if quick else (20, 30, 40, 50, 100):
         for extra in (-1, 0, 1):
